@@ -309,10 +309,21 @@ def harness_modfile():
     return mod
 
 
+def _cover_materialize(files):
+    """go's cover tool does not see -overlay files: in a coverage run (VERIF_COVER, always against
+    a scratch worktree made by tools/anchorcov.py) the overlay files are also copied into the tree."""
+    if COVER and REPO != "/repo" and files:
+        for rel, src in files.items():
+            dst = os.path.join(REPO, rel)
+            os.makedirs(os.path.dirname(dst), exist_ok=True)
+            shutil.copyfile(src, dst)
+
+
 def write_overlay(files, tag):
     """files: {path relative to REPO : absolute source path}. Returns overlay json path or None."""
     if not files:
         return None
+    _cover_materialize(files)
     d = os.path.join(ROOT, ".run")
     os.makedirs(d, exist_ok=True)
     ov = {"Replace": {os.path.join(REPO, rel): src for rel, src in files.items()}}
@@ -390,6 +401,7 @@ def go_test_overlay(pkg, files, run, cases, tag="x", timeout=900, env=None, race
     pin, pout = _io_paths(tag)
     with open(pin, "w") as f:
         json.dump(cases, f)
+    _cover_materialize(files)
     ov = {"Replace": {os.path.join(REPO, rel): src for rel, src in files.items()}}
     ovp = pin[:-8] + ".overlay.json"
     with open(ovp, "w") as f:
